@@ -91,6 +91,8 @@ def run(ctx):
         if rc == -9 or any("VIOL" in l for l in head):
             what = ([l for l in head if "VIOL" in l] or ["pool scenario timed out"])[0]
             ctx.violation("thread pool: " + what[:300], {"cmd": cmd, "trace": path}, signature="pool:" + what[12:70])
+        elif rc != 0 or not any(l.startswith("ORACLE ok") for l in head):
+            ctx.violation("thread pool harness died without a verdict (exit status %s): the library trapped or crashed" % rc, {"cmd": cmd}, signature="pool:crash")
         if drv:
             r = sh([drv, "root", path])
             ctx.cov["layers"].setdefault("L-trace pool", {})["replay%d" % i] = r.stdout.strip().splitlines()[0] if r.stdout.strip() else ""
